@@ -92,7 +92,7 @@ def effect_terms(targets, actions):
     return c.lst(acts), c.lst([str(x) for x in dims]), c.lst([c.zlist(v) for v in dynl])
 
 
-def build_block(targets, actions, ndyn, seed, neuron, utilities=None):
+def build_block(targets, actions, ndyn, seed, neuron, utilities=None, mutual_inhibit=None):
     """Build the spa.Network; returns handles."""
     import nengo
     import nengo_spa as spa
@@ -102,6 +102,8 @@ def build_block(targets, actions, ndyn, seed, neuron, utilities=None):
     h = {}
     with spa.Network(seed=seed) as net:
         net.config[nengo.Ensemble].neuron_type = neuron
+        if mutual_inhibit is not None:
+            net.config[spa.Thalamus].mutual_inhibit = mutual_inhibit     # a configured strength of the inhibition between actions
         if D % 16:
             # the routing channels are spa.State modules with the configured default split (16 does not divide D)
             net.config[spa.State].subdimensions = 8
@@ -256,7 +258,7 @@ def simulate_block(args):
 def _simulate_block(args):
     """(b): one seeded LIFRate block; returns plain data."""
     import nengo
-    seed_rules, seed, na, d = args
+    seed_rules, seed, na, d, mi = args
     _set_dim(d)
     import random
     rng = random.Random(seed_rules)
@@ -270,7 +272,7 @@ def _simulate_block(args):
         return [0.9 if i == w else 0.3 * ((i * 7 + w) % 2) for i in range(na)]
     with warnings.catch_warnings():
         warnings.simplefilter("ignore")
-        h = build_block(targets, actions, ndyn, seed, nengo.LIFRate(), utilities=util)
+        h = build_block(targets, actions, ndyn, seed, nengo.LIFRate(), utilities=util, mutual_inhibit=mi)
         with h["net"]:
             pt = nengo.Probe(h["acts"].thalamus.output, synapse=0.03)
             # what the target receives: the input node of a State; a Scalar's input is its ensemble (decoded value)
@@ -281,7 +283,7 @@ def _simulate_block(args):
     for k, w in enumerate(winners):
         sl = slice(int((k + 1) * T / 0.001) - 100, int((k + 1) * T / 0.001))
         res.append((w, sim.data[pt][sl].mean(0), [sim.data[p][sl].mean(0) for p in pr]))
-    return seed_rules, seed, na, d, targets, actions, res
+    return seed_rules, seed, na, d, targets, actions, res, mi
 
 
 def run(rep, tier, rng):
@@ -320,7 +322,7 @@ def run(rep, tier, rng):
     # ---------------- (b) simulation -------------------------------------------------------------------------
     tasks = []
     for b in range(12 if quick else 64):
-        tasks.append((rng.randrange(10 ** 9), rng.choice([1, 2, 3]), [1, 2, 3, 3, 4, 2][b % 6], [16, 32, 16, 24][b % 4]))
+        tasks.append((rng.randrange(10 ** 9), rng.choice([1, 2, 3]), [1, 2, 3, 3, 4, 2][b % 6], [16, 32, 16, 24][b % 4], [None, 2.0, None][b % 3]))
     from concurrent.futures import ProcessPoolExecutor
     with ProcessPoolExecutor(min(16, len(tasks)), mp_context=mp.get_context("fork")) as pool:
         results = list(pool.map(simulate_block, tasks))     # a dying worker raises BrokenProcessPool instead of hanging
@@ -330,12 +332,12 @@ def run(rep, tier, rng):
                           {"case": {"rule_seed": r[1][0], "seed": r[1][1], "actions": r[1][2], "d": r[1][3]}, "traceback": r[3],
                            "python": "# harness/props/c04.py simulate_block(%r)\nassert False, 'block could not be built or simulated'\n" % (r[1],)})
             continue
-        seed_rules, seed, na, d, targets, actions, res = r
+        seed_rules, seed, na, d, targets, actions, res, mi = r
         _set_dim(d)
         at, dt, yt = effect_terms(targets, actions)
         for phase, (w, thal, outs) in enumerate(res):
             base = {"rule_seed": seed_rules, "seed": seed, "d": d, "actions": actions, "targets": targets, "phase": phase, "winner": w,
-                    "thalamus": np.round(thal, 2).tolist()}
+                    "thalamus": np.round(thal, 2).tolist(), "config[spa.Thalamus].mutual_inhibit": mi}
             rep.case(("onehot", seed_rules, seed, phase))
             rep.count("thalamus-one-hot")
             if not (thal[w] > 0.75 and all(thal[i] < 0.2 for i in range(na) if i != w)):
@@ -364,5 +366,5 @@ def run(rep, tier, rng):
             rep.violation(f"phase {m['phase']} winner {m['winner']}: target {m['target']} received {str(m['observed'])[:100]}, not the winner's effects "
                           f"(actions {str(m['actions'])[:120]})",
                           {"case": {k: v for k, v in m.items() if k != "observed"}, "observed": m["observed"],
-                           "python": "# rebuild with harness/props/c04.py simulate_block((rule_seed, seed, n_actions, d))\nassert False, 'routed effects differ from the winner effects'\n",
+                           "python": "# rebuild with harness/props/c04.py simulate_block((rule_seed, seed, n_actions, d, mutual_inhibit))\nassert False, 'routed effects differ from the winner effects'\n",
                            "expected": "Model/Routing.v received (onehot w)"})
